@@ -14,6 +14,8 @@ import Lumina.Spec.C22
     insert hs=a1^-,a2^a1,a3^a2          header name ^ parent name (`-` = none), ascending heights
     mark h=3 | meta h=3 cids=1,2 | remove h=3
     crash ep=<sync epoch> k=<events of that epoch issued> mask=<all|none|hdr|nohdr|last|butlast|seed> n=<ops returned> sig=<log signature> vis=<0|1>
+    crashgo …same fields as crash…   (multi-crash: crash, reopen, and the history CONTINUES on the recovered database)
+    crashr ep= k= mask= n=0 sig= out=<ok|corrupt|other>   (second crash DURING redb's repair-on-open of the first; in scope)
     crash0 ep= k= mask= sig= out=<ok|invalid>      (crash inside redb's Database::create, before RedbStore::new: out of scope, specskip)
 
   Results:  ok <dump> tr=<shape> | err <Kind> <dump> tr=<shape> | reopen ok <dump> api=ok | reopen err <why>
@@ -161,6 +163,36 @@ def step (ds : DS) (line : String) : DS × String :=
     -- the property (the store does not exist yet); the observed outcome is an input (`out=`)
     if arg? ws "out" == some "ok" then (ds, s!"reopen ok {showSt (reopened St.empty)} api=ok")
     else (ds, "reopen err redb-open:I/O_error:_invalid_data")
+  | "crashgo" :: _ =>
+    -- MULTI-CRASH: the crash + reopen of a `crash` line, after which the history CONTINUES on the
+    -- recovered state: a new incarnation starts whose operation 0 (the reopen transaction,
+    -- `RedbStore::new` on an initialised database: the identity) has returned.  This is one `cons`
+    -- of `Props.C22.Lives`; the surviving prefix is `take (n + vis)`.
+    match natArg? ws "n", natArg? ws "vis" with
+    | some n, some vis =>
+      if vis > 1 then (ds, "bad-op")
+      else match ds.states[n + vis]? with
+        | some s =>
+          let s' := reopened s
+          ({ states := [s', s'], cur := s' }, s!"reopen ok {showSt s'} api=ok")
+        | none => (ds, "bad-op")
+    | _, _ => (ds, "bad-op")
+  | "crashr" :: _ =>
+    -- SECOND crash while redb's repair-on-open of an earlier crash is running (RedbStore::new has
+    -- not started; no operation of the new incarnation has returned: `n = 0`).  The admissible
+    -- outcome is the recovered state `states[0]`.  What real redb did is an input (`out=`): `ok`,
+    -- or `corrupt` = redb 2.6.3's `end_repair` left a stale allocator state behind a header that
+    -- says "no recovery required" (known finding C22/redb-end-repair-double-crash; the spec
+    -- reports it, the model line only has to reproduce the observed line).
+    match natArg? ws "n", arg? ws "out" with
+    | some n, some o =>
+      if o == "ok" then
+        match ds.states[n]? with
+        | some s => (ds, s!"reopen ok {showSt (reopened s)} api=ok")
+        | none => (ds, "bad-op")
+      else if o == "corrupt" then (ds, "reopen err allocator-corrupt")
+      else (ds, "reopen err unexpected")
+    | _, _ => (ds, "bad-op")
   | "crash" :: _ =>
     match natArg? ws "n", natArg? ws "vis" with
     | some n, some vis =>
@@ -190,7 +222,7 @@ def spec (ds : DS) (op : String) (obs : String) : String :=
   | "reset" :: _ => "specskip"
   | "universe" :: _ => "specskip"
   | "crash0" :: _ => "specskip"
-  | "crash" :: _ =>
+  | "crash" :: _ | "crashgo" :: _ | "crashr" :: _ =>
     match natArg? ws "n", os with
     | some n, "reopen" :: "ok" :: rest =>
       match parseSt rest with
@@ -205,6 +237,14 @@ def spec (ds : DS) (op : String) (obs : String) : String :=
         else if arg? rest "api" != some "ok" then
           "specfail C22/api-inconsistent store API lookups disagree with the tables"
         else "specok"
+    | some _, "reopen" :: "err" :: why :: _ =>
+      -- NARROW known class: a crash INSIDE redb's repair-on-open (`crashr`) after which redb's
+      -- allocator state is stale and the first write transaction panics.  Any other failed
+      -- reopen, and this failure at any other kind of crash point, is reported as a fresh
+      -- violation.
+      if ws.head? == some "crashr" && why == "allocator-corrupt" then
+        "specfail C22/redb-end-repair-double-crash second crash inside redb's end_repair: header says no recovery required, allocator state stale, RedbStore::new panics in redb"
+      else "specfail C22/reopen-failed reopening after the crash failed"
     | some _, "reopen" :: "err" :: _ => "specfail C22/reopen-failed reopening after the crash failed"
     | _, _ => "specfail C22/unparsed"
   | _ =>
